@@ -280,7 +280,7 @@ def in_dom_num(w, vals):
     return not p or max(p) - min(p) + 2 < 2 ** 63
 
 
-def legal_widths(w, vals, ctx_rng, extra_prob):
+def legal_widths(w, vals, ctx_rng, extra_prob, full=False):
     """(wd, base) pairs: every increment width from the smallest legal one up to
     three bits more, sometimes a much wider one, and a lower base"""
     p = present(vals)
@@ -297,7 +297,7 @@ def legal_widths(w, vals, ctx_rng, extra_prob):
             wd0 += 1
         if wd0 > 63:
             continue
-        wds = list(range(wd0, min(63, wd0 + 3) + 1))
+        wds = list(range(wd0, 64)) if full else list(range(wd0, min(63, wd0 + 3) + 1))
         if ctx_rng.random() < extra_prob:
             wds.append(ctx_rng.choice([w2 for w2 in (8, 16, 31, 32, 33, 47, 62, 63) if w2 > wd0] or [63]))
         out.extend((wd, base) for wd in sorted(set(wds)))
@@ -428,7 +428,10 @@ def gen_exhaustive(ctx, kind, widths_all, width_sampled, n_sample, extra_prob):
             vals = list(col)
             sufpat = format(rng.getrandbits(16), '016b')
             desc_id = NUM_ID if kind == 'num' else CF_IDS[w]
-            wl = legal_widths(w, vals, rng, extra_prob) if in_dom_num(w, vals) else []
+            # ALL legal widths (smallest .. 63) for the small columns; smallest .. +3 and a
+            # sampled wide one for the rest
+            full = (w <= 2) if ctx.quick else (w <= 3 or len(vals) <= 3)
+            wl = legal_widths(w, vals, rng, extra_prob, full) if in_dom_num(w, vals) else []
             cases.append((kind, w, vals, desc_id, None, sufpat, wl))
     return cases
 
@@ -905,7 +908,7 @@ def run(ctx):
         'implementation and model (bits compared), decoded by both and by the independent reader (values, final position compared), '
         'encoded/decoded uncompressed by both, and laid out by the harness at every legal increment width from the smallest up to 3 bits '
         'wider (sometimes much wider, sometimes with a lower base) and presented to the implementation decoder, the model decoder and '
-        'the independent reader; (b) random widths 1..64 (+ illegal widths), up to 40 subsets, clustered/full-range/equal/missing-heavy/'
+        'the independent reader (ALL widths up to 63 for w<=2 in quick, for w<=3 or <=3 subsets in thorough); (b) random widths 1..64 (+ illegal widths), up to 40 subsets, clustered/full-range/equal/missing-heavy/'
         'all-missing/wide-spread (6-bit field overflow)/out-of-range values; columns equal only after scaling; (c) character columns: all '
         'combinations of 11 entry classes (missing, empty, NUL, 0xFF, short, long, text) for 1..3 subsets and 0..4 octets, random to 65 '
         'octets and 40 subsets, text and bytes input; (d) raw streams (random, all-ones base, width 0/1, truncated) to the three decoders; '
